@@ -169,6 +169,7 @@ pub fn run(rep: &mut Report, tier: &str, seed: u64) {
         });
     conflict_stream(rep, &mut runner, tier, seed);
     dead_value_stream(rep, &mut runner, tier, seed);
+    per_match_fault_stream(rep, &mut runner, tier, seed);
 }
 
 /// Two-sided conflicts with other definitions in between: a duplicate scoped variable (or attribute) whose two
@@ -305,6 +306,80 @@ fn dead_value_stream(rep: &mut Report, runner: &mut Runner, tier: &str, seed: u6
                             json!({"tsg": text, "source": source.src, "named": named, "error": res.run.outcome.pretty()}));
                     } else {
                         rep.count("dead-value-stream:context-checked");
+                    }
+                }
+            }
+        }
+    }
+}
+
+/// A statement that fails for SOME matches only (an optional capture that is absent on some nodes): the error must cite the
+/// node of the match in which it failed, not the node of the first match that executed the statement.
+fn per_match_fault_stream(rep: &mut Report, runner: &mut Runner, tier: &str, seed: u64) {
+    use crate::gen::dsl::Program;
+    use crate::props::common::{load, Loaded, Source};
+    let n = if tier == "thorough" { 300 } else { 30 };
+    let root = crate::rng::Rng::new(seed ^ 0x9e7a);
+    for i in 0..n {
+        let mut r = root.fork(i as u64);
+        let body = match r.below(5) {
+            0 => "  node n\n  let rt = (source-text @ret)\n  attr (n) rt = rt\n".to_string(),
+            1 => "  let rt = (source-text @ret)\n".to_string(),
+            2 => "  let @f.rt = (source-text @ret)\n".to_string(),
+            3 => "  for zi in [1] {\n    let rt = (node-type @ret)\n    node n\n    attr (n) rt = rt\n  }\n".to_string(),
+            _ => "  node n\n  var rt = \"none\"\n  set rt = (source-text @ret)\n  attr (n) rt = rt\n".to_string(),
+        };
+        let cap = if body.contains("@f.") { "@f" } else { "@_f" };
+        let text = format!("(function_definition return_type: (_)? @ret) {} {{\n{}}}\n", cap, body);
+        // the first function has a return type; at least one later function has none
+        let k = r.range(2, 5);
+        let bad = r.range(1, k - 1);
+        let mut src = String::new();
+        let mut first_lacking = usize::MAX;
+        for j in 0..k {
+            let with_ret = j != bad && (j == 0 || r.chance(2, 3));
+            if !with_ret && first_lacking == usize::MAX {
+                first_lacking = j;
+            }
+            src.push_str(&format!("def f{}(){}:\n    pass\n", j, if with_ret { " -> int" } else { "" }));
+        }
+        let file = match load(&text) {
+            Ok(Ok(f)) => f,
+            other => {
+                rep.fail("direct", "C20 per-match-fault program rejected", true, json!({"tsg": text, "result": format!("{:?}", other.map(|x| x.map(|_| "file")))}));
+                continue;
+            }
+        };
+        let source = Source { tree: crate::tree::parse_python(&src), src };
+        let info = crate::tree::TreeInfo::new(&source.tree);
+        let loaded = Loaded { program: Program { text: text.clone(), header: String::new(), stanzas: vec![text.clone()], globals: vec![], stanza_count: 1, has_fault: false, features: vec![], static_fault: None }, file };
+        let mi = crate::execx::model_input(&loaded.file, &source.tree, &source.src, &info);
+        runner.set_tree(&info, &source.src);
+        runner.table = crate::oracle::OracleTable::new();
+        let case = Case { tsg: &text, loaded: &loaded, source: &source, info: &info, mi: &mi };
+        rep.case(&format!("{}\u{0}{}", text, source.src), true);
+        for lazy in [false, true] {
+            let mode = if lazy { "lazy" } else { "strict" };
+            let res = runner.check_mode(rep, &case, &RunCfg { lazy, globals: vec![], outer_globals: vec![], debug: None, cancel_at: None }, true, true);
+            rep.count(&format!("per-match-fault-stream:{}:{}", mode, res.class));
+            if res.class == "ok" || res.class == "panic" {
+                rep.fail("direct", &format!("C20 {}: a statement that fails for one match did not make execution fail", mode), true,
+                    json!({"tsg": text, "source": source.src, "outcome": res.run.outcome.pretty()}));
+                continue;
+            }
+            // direct: the cited node is the first function WITHOUT a return type (row 2 * its index)
+            let rendered = res.run.outcome.pretty();
+            let want_row = 2 * first_lacking;
+            match first_stmt_ctx(&res.run.outcome) {
+                None => rep.fail("direct", &format!("C20 {}: the error carries no statement context", mode), true, json!({"tsg": text, "source": source.src, "error": rendered})),
+                Some(ctxs) => {
+                    // a statement context is (stmt-loc stanza-loc src-loc kind): the source location is the third component
+                    let ok = ctxs.iter().any(|c| c.as_list().map(|l| l.len() >= 3 && l[2].pretty() == format!("({} 0)", want_row)).unwrap_or(false));
+                    if !ok {
+                        rep.fail("direct", &format!("C20 {}: the error does not cite the node of the match in which the statement failed", mode), true,
+                            json!({"tsg": text, "source": source.src, "expected_source_position": format!("({} 0)", want_row), "error": rendered}));
+                    } else {
+                        rep.count("per-match-fault-stream:node-checked");
                     }
                 }
             }
